@@ -728,6 +728,10 @@ func (fr *Frame) callContract(st *State, ct *FuncContract, fn *ssa.Function, sig
 		}
 		g, err := fr.evalBoolEnv(cl.E, env)
 		if err != nil {
+			if strings.Contains(err.Error(), "retof:") || strings.Contains(err.Error(), "ret:") {
+				// the clause (through a let) speaks about calls made inside the callee
+				continue
+			}
 			return nil, fmt.Errorf("ensures %s of %s: %v", cl.Label, ct.Name, err)
 		}
 		r.assume(st, g)
